@@ -584,6 +584,11 @@ func (mi *muxInst) videoData(u wunit) [][]byte {
 		if u.RA {
 			au = append(au, append([]byte{0x65}, payloadTail(u, 0)...))
 		} else {
+			if u.Seq%3 == 1 {
+				// every third ordinary picture comes with an SEI NAL unit carrying a recovery_point message (open-GOP
+				// encoders mark the pictures a decoder could start from this way): it is not an IDR picture all the same
+				au = append(au, []byte{0x06, 0x06, 0x01, 0xc4, 0x80})
+			}
 			au = append(au, append([]byte{0x41}, payloadTail(u, 0)...))
 		}
 	case "h265b":
